@@ -38,4 +38,18 @@ PROPS = {
         "trusted_base": ["hand-written model GGV.Model.Excerpt of src/reporting/reporter.go (truncateString, calculateDisplayColumn, readSourceLines, formatPrettyError), tied byte-for-byte by the excerpt suite",
                          "constants MaxLineLength and the (2,1) context regenerated from /repo (T5)"],
     },
+    "C18": {
+        "theorems": T("C18", ["parseList_char", "parseList_order", "parseList_join_idem", "resolve_precedence", "repoDefaults_normal",
+                               "repoDefaults_documented", "resolve_default", "env_empty_is_set", "parseBool_iff", "checks_upper",
+                               "items_wellformed", "asciiUpper_ok"]),
+        "suites": ["cfg"],
+        "binary": True,
+        "assumptions": [
+            "strings are modelled as lists of Unicode code points; unicode.ToUpper is a parameter constrained by UpperOK (idempotent, creates no comma, creates no blank), validated for Go's tables over all 1,114,112 runes on every run",
+            "the driver instantiates the case mappings by ASCII-only mappings; inputs on which Go's tables differ from that (or invalid UTF-8) are only checked for 'the tool does not fail' and counted as outside_fragment",
+            "invalid flag booleans (--config.scan-tests=yes) make package flag exit 2; the property exempts only environment values, so flag booleans are drawn from strconv.ParseBool spellings",
+        ],
+        "trusted_base": ["hand-written model GGV.Model.Config of src/config/config.go (parseStringList, parseBool, FromEnv, CreateFlagSet defaults, ParseFlagsFromFlagSet, ShouldSkipFile), tied in-process and through the real binary",
+                         "defaults regenerated from config.Default() (T5)", "package flag, os.LookupEnv, strings.TrimSpace/ToUpper/ToLower/Split/Join as Go provides them"],
+    },
 }
